@@ -342,7 +342,7 @@ func randomFault(r *rand.Rand, a *sh.Arch) (sh.Fault, bool) {
 	if !a.GzPhase {
 		kinds = append(kinds, "flip", "flip", "flip", "truncin", "truncat")
 		if !a.Trunc {
-			kinds = append(kinds, "remove", "reorder", "inject", "inject")
+			kinds = append(kinds, "remove", "reorder", "inject", "inject", "sumsline", "sumsline")
 		}
 	}
 	if a.Wrap == "gz" {
@@ -367,6 +367,42 @@ func randomFault(r *rand.Rand, a *sh.Arch) (sh.Fault, bool) {
 		}
 		f.I = r.Intn(len(a.Tar))
 		f.K, f.M = a.Tar[f.I].K, a.Tar[f.I].M
+	case "sumsline":
+		// an intact SHA256SUMS member (header, text and padding untouched)
+		var idx []int
+		for i := 1; i+1 < len(a.Tar); i++ {
+			if s := a.Tar[i]; s.K == "content" && s.M == "sums" && s.D == "ok" && a.Tar[i-1].D == "ok" && a.Tar[i+1].D == "ok" {
+				idx = append(idx, i)
+			}
+		}
+		if len(idx) == 0 {
+			return f, false
+		}
+		i := idx[r.Intn(len(idx))]
+		ls := a.Tar[i].Lines
+		f.I, f.K, f.M = i+1, "content", "sums"
+		f.Fx = []string{"dup", "copy", "copy", "swap", "drop", "addx", "addwrong"}[r.Intn(7)]
+		if len(ls) == 0 && f.Fx != "addx" {
+			return f, false
+		}
+		switch f.Fx {
+		case "dup", "drop":
+			f.Src = 1 + r.Intn(len(ls))
+		case "addwrong":
+			f.Src = 1 + r.Intn(len(ls))
+			if ls[f.Src-1].N == "x" {
+				return f, false
+			}
+		case "copy", "swap":
+			j, k := r.Intn(len(ls)), r.Intn(len(ls))
+			if ls[j].N == ls[k].N && ls[j].Dg == ls[k].Dg {
+				return f, false
+			}
+			if f.Fx == "swap" && j > k {
+				j, k = k, j
+			}
+			f.Src, f.Perm = j+1, []int{k + 1}
+		}
 	case "remove":
 		if n == 0 {
 			return f, false
@@ -458,8 +494,8 @@ func cmdRandom(args []string) {
 					if fl.T == "flip" && s.K == "content" && s.M == "sums" {
 						probe := append([]byte(nil), s.B...)
 						probe[p.Pos] ^= byte(p.Pat)
-						fl.Fx = b.SumsStatus(probe)
-						if fl.Fx == "intact" || (s.D == "flip" && fl.Fx != "damaging") {
+						fl.Fx, fl.Src = sh.LineEffect(s.Lines, b.DecodeLines(probe))
+						if fl.Fx == "" {
 							ok = false
 						}
 					}
@@ -478,6 +514,8 @@ func cmdRandom(args []string) {
 				}
 			case "inject":
 				p = sh.P{Var: r.Intn(sh.NumXVariants())}
+			case "sumsline":
+				p = sh.P{Var: r.Intn(sh.NumLineVariants(fl.Fx))}
 			}
 			if !ok {
 				break
